@@ -1,7 +1,7 @@
 (* C06 — property theorems only.  Each is closed by `exact` of a lemma of C06_Proofs*.v. *)
 From Coq Require Import List NArith Bool Arith.
 From Dae.gen Require Import C06_Extracted.
-From Dae Require Import C06_Spec C06_Model C06_Async C06_Session C06_Clock C06_Key C06_Proofs.
+From Dae Require Import C06_Spec C06_Model C06_Async C06_Session C06_Clock C06_Key C06_HttpVar C06_Proofs.
 Import ListNotations.
 Open Scope N_scope.
 
@@ -77,6 +77,26 @@ Theorem C06_http_roundtrip :
     wf_head q = true -> sniff_group_tcp (enc_head q ++ body) slack = host_of q.
 Proof. exact C06_http_roundtrip_proof. Qed.
 Print Assumptions C06_http_roundtrip.
+
+(* The request head ends at the first empty line: the name is the Host header of the HEAD only.  For every
+   head without a Host header and EVERY body (body text, a pipelined second request, anything) no name is
+   reported; a head with a Host header reports that one whatever the body says (C06_http_roundtrip). *)
+Theorem C06_http_no_host_no_name :
+  forall (q : http_head) (body slack : bytes),
+    wf_head q = true -> first_host_header (q_headers q) = None ->
+    sniff_group_tcp (enc_head q ++ body) slack = NotFound.
+Proof. exact C06_http_no_host_no_name_proof. Qed.
+Print Assumptions C06_http_no_host_no_name.
+
+(* The line walker that skips the empty line instead of stopping there reads on into the body and reports a
+   Host line found THERE - a name the request head does not carry. *)
+Theorem C06_http_scan_past_head_refuted :
+  exists (q : http_head) (body : bytes),
+    wf_head q = true /\ first_host_header (q_headers q) = None
+    /\ sniff_http_past (enc_head q ++ body) <> host_of q
+    /\ exists n, sniff_http_past (enc_head q ++ body) = Found n.
+Proof. exact C06_http_scan_past_head_refuted_proof. Qed.
+Print Assumptions C06_http_scan_past_head_refuted.
 
 (* ---------------------------------------------------------------- QUIC CRYPTO reassembly *)
 (* However the CRYPTO stream s is cut into frames (split, reordered, duplicated, overlapping) and
